@@ -1075,7 +1075,6 @@ func genAlias(r *vhlib.Rng, n int, stream string) []*scenario {
 	for i := 0; i < n; i++ {
 		var ops []kOp
 		cuts := map[int]bool{}
-		restarted := false
 		if stream == "shared" {
 			// DIRECTED: one alias shared by 2-3 indexes, removed from one of them, then from the
 			// others down to an index's LAST alias; every step is followed by the full snapshot of
@@ -1116,7 +1115,6 @@ func genAlias(r *vhlib.Rng, n int, stream string) []*scenario {
 			if cutAt == k {
 				cuts[len(ops)] = true
 			}
-			restarted = cutAt >= 0
 			ops = append(ops, kOp{Op: "agetidx", Name: sh[0]})
 		}
 		l := r.Range(6, 20)
@@ -1145,17 +1143,10 @@ func genAlias(r *vhlib.Rng, n int, stream string) []*scenario {
 			case x < 78:
 				ops = append(ops, kOp{Op: "agetidx", Org: org, Name: vhlib.Pick(r, append(idxs, als...))})
 			default:
-				// main stream: the reverse lookup OPERATION (compared with the Coq model) is only asked
-				// before the first restart; the snapshots are taken always
-				if (stream == "main" || stream == "shared") && restarted {
-					ops = append(ops, kOp{Op: "agetidx", Org: org, Name: vhlib.Pick(r, idxs)})
-				} else {
-					ops = append(ops, kOp{Op: "aisalias", Org: org, Alias: vhlib.Pick(r, ap)})
-				}
+				ops = append(ops, kOp{Op: "aisalias", Org: org, Alias: vhlib.Pick(r, ap)})
 			}
 			if r.Chance(12) {
 				cuts[len(ops)] = true
-				restarted = true
 			}
 		}
 		cuts[len(ops)] = true
@@ -1277,7 +1268,7 @@ func checkAlias(sc *scenario, sum *vhlib.Summary) *verdict {
 			v.obs = append(v.obs, "ASet "+coqSet(got))
 			want := sortedKeys(fwd[f.Org][f.Name])
 			sort.Strings(got)
-			if !stop && !shut && (res.Status != 200 || strings.Join(got, "\x00") != strings.Join(want, "\x00")) {
+			if !stop && (res.Status != 200 || strings.Join(got, "\x00") != strings.Join(want, "\x00")) && !shut {
 				fail("alias_forward_read_differs_from_last_write", fmt.Sprintf("GET %s/_alias tenant %d: read %q, last written %q", f.Name, f.Org, got, want), k)
 				stop = true
 			}
@@ -1310,14 +1301,12 @@ func checkAlias(sc *scenario, sum *vhlib.Summary) *verdict {
 				continue
 			}
 			spec := fwd[org]
+			// classes of defects that have been repaired (a69a617): reported wherever they show up,
+			// once per scenario; they are regressions now
 			known := func(class, detail string) {
-				// what the unchanged code gets wrong: reported outside the main streams only, once per scenario
-				if sc.Class != "main" && sc.Class != "shared" && !knownReported[class] {
+				if !knownReported[class] {
 					knownReported[class] = true
 					fail(class, detail, k)
-				} else if !knownReported[class] {
-					knownReported[class] = true
-					sum.Count("alias/tolerated_in_main_stream/" + class)
 				}
 			}
 			// (1) index -> aliases
@@ -1344,9 +1333,10 @@ func checkAlias(sc *scenario, sum *vhlib.Summary) *verdict {
 			if stop {
 				break
 			}
-			if shut {
-				// the files are polluted from here on; the reverse map is rebuilt from them
-				continue
+			if stop || knownReported["alias_shutdown_flush_writes_reversed_files"] {
+				// the spec map is no longer trusted for this scenario
+				stop = true
+				break
 			}
 			// (2) alias -> indexes: the spec's reverse view
 			specRev := map[string]map[string]bool{}
@@ -1364,15 +1354,18 @@ func checkAlias(sc *scenario, sum *vhlib.Summary) *verdict {
 			// last restart (known: tenant 0's files are not scanned at start)
 			lostOK := func(a, ix string) bool { return epochOf[pair{org, a, ix}] < epoch }
 			judgeMissing := func(fn, a, ix, d string) {
-				if lostOK(a, ix) {
-					known("alias_lookup_lost_after_restart", d+" (initializeAliasToIndexMap scans only sub-directories, tenant 0's files are not read)")
+				if cause.Op == "aremove" && cause.Alias == a && cause.Name != ix && cause.Org == org && !f.Restart {
+					fail("alias_remove_disturbs_other_index", d, k)
+					stop = true
 					return
 				}
-				cl := "alias_reverse_lookup_differs_from_last_write"
-				if cause.Op == "aremove" && cause.Alias == a && cause.Name != ix && cause.Org == org {
-					cl = "alias_remove_disturbs_other_index"
+				if lostOK(a, ix) {
+					// the pair was written before the last restart and is not found after it
+					known("alias_lookup_lost_after_restart", d+" (the alias files of the tenant were not loaded at start)")
+					stop = true
+					return
 				}
-				fail(cl, d, k)
+				fail("alias_reverse_lookup_differs_from_last_write", d, k)
 				stop = true
 			}
 			judgeExtra := func(fn, a, ix, d string) {
